@@ -1,6 +1,11 @@
 package main
 
-import "golang.org/x/tools/go/ssa"
+import (
+	"go/token"
+	"strings"
+
+	"golang.org/x/tools/go/ssa"
+)
 
 func init() {
 	register(&property{
@@ -12,8 +17,13 @@ func init() {
 			Assumptions: []string{"x/crypto agent client and ssh.ParsePublicKey/Marshal round-trip blobs", "sort.Slice passes in-range indices", "the underlying agent's own behaviour"},
 			Trusted:     []string{"go/packages", "go/types", "go/ssa", "callgraph/vta", "golang.org/x/crypto/ssh/agent"},
 			RuleDoc: map[string]string{
-				"R4.bounds": "index/slice/assertion obligations in the shim package",
-				"R4.nil":    "use-before-error-check (constructor) and json-null obligations",
+				"R1.hardcert":    "hardware-certificate insert gated on key-blob equality with a listed key; no-op and not-found returns",
+				"R2.passthrough": "argument / result pass-through table of Add, Remove, RemoveAll, Extension, Forward",
+				"R3.framing":     "framed read allocation bound and write refusal in both copies",
+				"R5.errors":      "error discipline of every fallible call in the shim package",
+				"R6.deletions":   "who may delete from the in-memory table",
+				"R4.bounds":      "index/slice/assertion obligations in the shim package",
+				"R4.nil":         "use-before-error-check (constructor) and json-null obligations",
 			},
 		},
 		Run: runC10,
@@ -38,4 +48,468 @@ func runC10(c *Ctx) {
 		c.Unresolved("R4.nil", "shimagent.New")
 	}
 	runPanicRules(c, "R4", shimEntries(w), 30)
+	m := resolveShim(w)
+	for _, p := range m.problems {
+		c.Unresolved("R1.hardcert", p)
+	}
+	if m.Server == nil || len(m.problems) > 0 {
+		return
+	}
+	c10HardCert(c, m)
+	c10PassThrough(c, m)
+	c10Framing(c)
+	c10Errors(c, m)
+	c10Deletions(c, m)
+}
+
+func c10HardCert(c *Ctx, m *shimModel) {
+	w := c.w
+	fn := m.Methods["AddHardCert"]
+	if fn == nil {
+		c.Unresolved("R1.hardcert", "method AddHardCert")
+		return
+	}
+	c.Saw(fn)
+	f := w.Facts(fn)
+	var cast, list *ssa.Call
+	for _, call := range callsIn(fn) {
+		cv, ok := call.(*ssa.Call)
+		if !ok {
+			continue
+		}
+		if strings.HasSuffix(calleeName(cv), "sshutils/key.CastSSHPublicKeyToCertificate") {
+			cast = cv
+		}
+		if cv.Call.IsInvoke() && cv.Call.Method.Name() == "List" && m.isLoadOfField(cv.Call.Value, m.fAgent) {
+			list = cv
+		}
+	}
+	if cast == nil || list == nil {
+		c.Bad("R1.hardcert", "AddHardCert|cast and listing", w.FnPos(fn), "AddHardCert no longer casts the key to a certificate and lists the underlying agent's keys")
+		return
+	}
+	c.Check(w.Expr(cast.Call.Args[0]) == "p1", "R1.hardcert", "AddHardCert|casts the offered key", w.Pos(cast.Pos()), "cast(key)", "the certificate examined is not the offered key")
+	certV := extractOf(cast, 0)
+	nIns := 0
+	for _, a := range w.FieldAccesses(m.Server, m.fCerts) {
+		if a.Fn != fn || a.Kind != "mapwrite" {
+			continue
+		}
+		nIns++
+		mu := a.Instr.(*ssa.MapUpdate)
+		b := mu.Block()
+		isNil, known := f.KnownNil(b, extractOf(cast, 1))
+		c.Check(known && isNil, "R1.hardcert", "AddHardCert|only certificates accepted", w.Pos(mu.Pos()), "must-fact cast err == nil", "a key that is not a certificate can be inserted")
+		isNil, known = f.KnownNil(b, extractOf(list, 1))
+		c.Check(known && isNil, "R1.hardcert", "AddHardCert|listing succeeded", w.Pos(mu.Pos()), "must-fact agent.List() err == nil", "insert without a successful listing of the underlying agent")
+		// bytes.Equal(agentKey.Marshal(), cert.Key.Marshal()) == true with agentKey ranging over this listing
+		okEq := f.Any(b, func(l Lit) bool {
+			cv, ok := l.V.(*ssa.Call)
+			if !ok || !l.Pol || calleeName(cv) != "bytes.Equal" {
+				return false
+			}
+			x, y := w.Expr(cv.Call.Args[0]), w.Expr(cv.Call.Args[1])
+			listed := "Agent).List>(p0." + m.fAgent + ")#0["
+			certKey := w.Expr(certV) + ".Key)"
+			return (strings.Contains(x, listed) && strings.Contains(x, "Marshal") && strings.Contains(y, certKey) && strings.Contains(y, "Marshal")) ||
+				(strings.Contains(y, listed) && strings.Contains(y, "Marshal") && strings.Contains(x, certKey) && strings.Contains(x, "Marshal"))
+		})
+		c.Check(okEq, "R1.hardcert", "AddHardCert|certificate key is held by the underlying agent", w.Pos(mu.Pos()), "must-fact bytes.Equal(listedKey.Marshal(), cert.Key.Marshal())", "a hardware certificate can be accepted without the must-fact that its public key equals a key the underlying agent lists now")
+		// key and value of the insert
+		c.Check(strings.Contains(w.Expr(mu.Key), "Marshal>(p1)"), "R1.hardcert", "AddHardCert|table keyed by the offered blob's hash", w.Pos(mu.Pos()), "hash(key.Marshal())", "the table key is not the hash of the offered key")
+		okVal := false
+		if al, ok := mu.Value.(*ssa.Alloc); ok {
+			for fld, vals := range FieldStores(fn, al) {
+				if fld == "Certificate" && len(vals) == 1 && vals[0] == certV {
+					okVal = true
+				}
+			}
+		}
+		c.Check(okVal, "R1.hardcert", "AddHardCert|stores the cast certificate", w.Pos(mu.Pos()), "&certificate{cert,...}", "what is stored is not the certificate that was checked")
+	}
+	c.Floor("R1.hardcert", nIns, 1, "insert into the hardware-certificate table")
+	// present already -> nil before any agent effect; absent -> key-not-found
+	nPresent, nAbsent := 0, 0
+	for _, r := range liveReturns(fn) {
+		b := r.Block()
+		present := f.Any(b, func(l Lit) bool {
+			ex, ok := l.V.(*ssa.Extract)
+			if !ok || !l.Pol || ex.Index != 1 {
+				return false
+			}
+			lk, ok := ex.Tuple.(*ssa.Lookup)
+			return ok && m.isLoadOfField(lk.X, m.fCerts)
+		})
+		if present {
+			nPresent++
+			okNil := true
+			for _, lf := range w.Leaves(r.Results[0], r) {
+				if !isNilConst(lf.Val) {
+					okNil = false
+				}
+			}
+			noEffect := !InstrDominates(list, r) && !ReachableAvoiding(list, nil)(r)
+			c.Check(okNil && noEffect, "R1.hardcert", "AddHardCert|re-adding is a no-op", w.Pos(r.Pos()), "returns nil before touching the agent", "adding an already present hardware certificate is not a pure no-op")
+		}
+		for _, lf := range w.Leaves(r.Results[0], r) {
+			if strings.HasSuffix(w.Expr(lf.Val), "shimagent.errAgentNotFoundKey") {
+				nAbsent++
+				// reached only after the whole listing was scanned
+				done := f.Any(b, func(l Lit) bool {
+					bin, ok := l.V.(*ssa.BinOp)
+					if !ok || bin.Op != token.LSS || l.Pol {
+						return false
+					}
+					la := lenArg(bin.Y)
+					return la != nil && la == extractOf(list, 0) && isForwardRangeIndex(bin.X)
+				})
+				c.Check(done, "R1.hardcert", "AddHardCert|key-not-found only after the whole listing was scanned", w.Pos(r.Pos()), "range over the listing exhausted", "key-not-found can be returned before every listed key was compared")
+			}
+		}
+	}
+	c.Floor("R1.hardcert", nPresent, 1, "already-present return")
+	c.Floor("R1.hardcert", nAbsent, 1, "key-not-found return")
+}
+
+type passRow struct {
+	method string
+	callee string   // method invoked on the underlying agent
+	args   []string // canonical expressions of the arguments
+}
+
+func c10PassThrough(c *Ctx, m *shimModel) {
+	w := c.w
+	rows := []passRow{
+		{"Add", "Add", []string{"p1"}},
+		{"RemoveAll", "RemoveAll", nil},
+		{"Extension", "Extension", []string{"p1", "p2"}},
+	}
+	for _, row := range rows {
+		fn := m.Methods[row.method]
+		if fn == nil {
+			c.Unresolved("R2.passthrough", "method "+row.method)
+			continue
+		}
+		c.Saw(fn)
+		var call *ssa.Call
+		for _, cv := range invokeOf(fn, row.callee) {
+			if m.isLoadOfField(cv.Call.Value, m.fAgent) {
+				call = cv
+			}
+		}
+		if call == nil {
+			c.Bad("R2.passthrough", row.method+"|forwards to the underlying agent", w.FnPos(fn), row.method+" no longer calls the underlying agent's "+row.callee)
+			continue
+		}
+		okArgs := len(call.Call.Args) == len(row.args)
+		for i := range row.args {
+			if okArgs && w.Expr(call.Call.Args[i]) != row.args[i] {
+				okArgs = false
+			}
+		}
+		c.Check(okArgs, "R2.passthrough", row.method+"|arguments unchanged", w.Pos(call.Pos()), "parameters handed over as received", "the arguments handed to the underlying agent are not the caller's: "+exprList(w, call.Call.Args))
+		// every return after the call returns its results
+		okRet := true
+		for _, r := range liveReturns(fn) {
+			if !InstrDominates(call, r) {
+				continue
+			}
+			for i, rv := range r.Results {
+				for _, lf := range w.Leaves(rv, r) {
+					want := ssa.Value(call)
+					if len(r.Results) > 1 {
+						want = extractOf(call, i)
+					}
+					if lf.Val != want {
+						okRet = false
+					}
+				}
+			}
+		}
+		c.Check(okRet, "R2.passthrough", row.method+"|result unchanged", w.Pos(call.Pos()), "the underlying agent's result is returned as is", "the result of the underlying agent is altered or replaced")
+	}
+	// Remove -> remove(key) -> agent.Remove(key)
+	if rm := m.Methods["Remove"]; rm != nil {
+		c.Saw(rm)
+		ok := false
+		for _, call := range callsIn(rm) {
+			if cv, isCall := call.(*ssa.Call); isCall {
+				if callee := cv.Call.StaticCallee(); callee != nil && recvNamed(callee) == m.Server && len(cv.Call.Args) == 2 && w.Expr(cv.Call.Args[1]) == "p1" && w.Expr(cv.Call.Args[0]) == "p0" {
+					for _, inner := range invokeOf(callee, "Remove") {
+						if m.isLoadOfField(inner.Call.Value, m.fAgent) && w.Expr(inner.Call.Args[0]) == "p1" {
+							ok = true
+						}
+					}
+				}
+			}
+		}
+		c.Check(ok, "R2.passthrough", "Remove|key reaches the underlying agent unchanged", w.FnPos(rm), "Remove(key) -> remove(key) -> agent.Remove(key)", "the key removed from the underlying agent is not the caller's key")
+	}
+	// Forward: write(conn, req) then return read(conn)
+	if fw := m.Methods["Forward"]; fw != nil {
+		c.Saw(fw)
+		var wr, rd *ssa.Call
+		for _, call := range callsIn(fw) {
+			cv, ok := call.(*ssa.Call)
+			if !ok || cv.Call.StaticCallee() == nil {
+				continue
+			}
+			for _, a := range cv.Call.Args {
+				if m.isLoadOfField(strip(a), m.fConn) {
+					if len(cv.Call.Args) == 2 {
+						wr = cv
+					} else {
+						rd = cv
+					}
+				}
+			}
+		}
+		if wr == nil || rd == nil {
+			c.Bad("R2.passthrough", "Forward|raw exchange on the connection", w.FnPos(fw), "Forward no longer writes the request to and reads the reply from the upstream connection")
+		} else {
+			c.Check(w.Expr(wr.Call.Args[1]) == "p1", "R2.passthrough", "Forward|request relayed byte for byte", w.Pos(wr.Pos()), "write(conn, req)", "the bytes written upstream are not the caller's request: "+w.Short(wr.Call.Args[1]))
+			f := w.Facts(fw)
+			isNil, known := f.KnownNil(rd.Block(), wr)
+			c.Check(known && isNil && InstrDominates(wr, rd), "R2.passthrough", "Forward|reply read after a successful write", w.Pos(rd.Pos()), "read dominated by write with must-fact err == nil", "the reply is read although the request was not written")
+			okRet := true
+			for _, r := range liveReturns(fw) {
+				if !InstrDominates(rd, r) {
+					continue
+				}
+				for i, rv := range r.Results {
+					for _, lf := range w.Leaves(rv, r) {
+						if lf.Val != extractOf(rd, i) {
+							okRet = false
+						}
+					}
+				}
+			}
+			c.Check(okRet, "R2.passthrough", "Forward|reply returned unchanged", w.Pos(rd.Pos()), "return read(conn)", "the reply handed back is not what was read from the connection")
+		}
+	}
+}
+
+func exprList(w *World, vs []ssa.Value) string {
+	var p []string
+	for _, v := range vs {
+		p = append(p, w.Short(v))
+	}
+	return strings.Join(p, ", ")
+}
+
+// c10Framing: both copies of the framed read allocate only under length <= bound; write refuses longer data.
+func c10Framing(c *Ctx) {
+	w := c.w
+	bounds := map[string]int64{}
+	for _, pkg := range []string{shimPkg, yubiPkg} {
+		rd, wr := w.Func(pkg, "read"), w.Func(pkg, "write")
+		if rd == nil || wr == nil {
+			c.Unresolved("R3.framing", "framed read/write helpers of "+pkg)
+			continue
+		}
+		c.Saw(rd)
+		c.Saw(wr)
+		f := w.Facts(rd)
+		nAlloc := 0
+		for _, b := range rd.Blocks {
+			for _, ins := range b.Instrs {
+				ms, ok := ins.(*ssa.MakeSlice)
+				if !ok {
+					continue
+				}
+				if _, isConst := intConst(ms.Len); isConst {
+					continue
+				}
+				nAlloc++
+				// the length (through conversions) has the fact not (l > C)
+				base := ms.Len
+				for {
+					if cv, ok := base.(*ssa.Convert); ok {
+						base = cv.X
+						continue
+					}
+					break
+				}
+				var bound int64 = -1
+				f.Any(b, func(l Lit) bool {
+					bin, ok := l.V.(*ssa.BinOp)
+					if !ok {
+						return false
+					}
+					k, isK := intConst(bin.Y)
+					if !isK || bin.X != base {
+						return false
+					}
+					switch {
+					case bin.Op == token.GTR && !l.Pol:
+						bound = k
+					case bin.Op == token.GEQ && !l.Pol:
+						bound = k - 1
+					case bin.Op == token.LEQ && l.Pol:
+						bound = k
+					case bin.Op == token.LSS && l.Pol:
+						bound = k - 1
+					}
+					return false
+				})
+				c.Check(bound >= 0 && bound <= 16<<20, "R3.framing", pkg+".read|allocation bounded", w.Pos(ms.Pos()), "make([]byte, l) under must-fact l <= "+itoa(int(bound)), "the frame buffer is allocated without the must-fact 'declared length <= 16 MiB' (bound found: "+itoa(int(bound))+")")
+				bounds[pkg] = bound
+				// length comes from the 4-byte big-endian prefix
+				c.Check(strings.Contains(w.Expr(base), "Uint32"), "R3.framing", pkg+".read|length is the frame prefix", w.Pos(ms.Pos()), "binary.BigEndian.Uint32(prefix)", "the allocated length is not the decoded frame prefix")
+			}
+		}
+		c.Floor("R3.framing", nAlloc, 1, "frame buffer allocation in "+pkg+".read")
+		// write: every Write call has the fact not (len(data) > C)
+		wf := w.Facts(wr)
+		nW := 0
+		for _, call := range invokeOf(wr, "Write") {
+			nW++
+			ok := wf.Any(call.Block(), func(l Lit) bool {
+				bin, ok := l.V.(*ssa.BinOp)
+				if !ok || l.Pol || bin.Op != token.GTR {
+					return false
+				}
+				la := lenArg(bin.X)
+				k, isK := intConst(bin.Y)
+				return la != nil && w.Expr(la) == "p1" && isK && k <= 16<<20
+			})
+			c.Check(ok, "R3.framing", pkg+".write|refuses oversized data", w.Pos(call.Pos()), "must-fact not (len(data) > bound)", "data longer than the bound can be written (the 4-byte length would wrap or the peer would refuse it)")
+		}
+		c.Floor("R3.framing", nW, 2, "Write calls in "+pkg+".write")
+	}
+	if len(bounds) == 2 {
+		c.Check(bounds[shimPkg] == bounds[yubiPkg], "R3.framing", "read|both copies use the same bound", "-", "equal constants", "the two framed readers disagree on the maximum frame size")
+	}
+}
+
+// c10Errors: every error produced by the underlying agent or the framing / pruning helpers is examined and,
+// when non-nil, ends the operation with a non-nil error.
+func c10Errors(c *Ctx, m *shimModel) {
+	w := c.w
+	n := 0
+	for _, fn := range w.RepoFuncs() {
+		root := fn
+		for root.Parent() != nil {
+			root = root.Parent()
+		}
+		if root.Pkg == nil || root.Pkg != w.Pkg(shimPkg) {
+			continue
+		}
+		f := w.Facts(fn)
+		for _, call := range callsIn(fn) {
+			cm := call.Common()
+			interesting := ""
+			if cm.IsInvoke() && m.isLoadOfField(cm.Value, m.fAgent) {
+				interesting = "agent." + cm.Method.Name()
+			} else if callee := cm.StaticCallee(); callee != nil && w.InRepo(callee) && callee.Pkg == root.Pkg && errorResultIndex(callee) >= 0 {
+				interesting = shortFn(callee)
+			} else if cm.IsInvoke() && cm.Method.Name() == "remove" {
+				interesting = "remover.remove"
+			}
+			if interesting == "" {
+				continue
+			}
+			if _, isDefer := call.(*ssa.Defer); isDefer {
+				continue
+			}
+			u, has := ErrUseOf(call)
+			if !has {
+				continue
+			}
+			n++
+			key := shortFn(fn) + "|" + interesting
+			if u.Dropped {
+				// accumulated with multierr.Append?
+				acc := false
+				if u.Err != nil {
+					for _, ins := range valueUsers(u.Err) {
+						if cc, ok := ins.(*ssa.Call); ok && strings.HasSuffix(calleeName(cc), "multierr.Append") {
+							acc = true
+						}
+					}
+				}
+				c.Check(acc, "R5.errors", key+" error examined", w.Pos(call.Pos()), "accumulated with multierr.Append (returned when non-nil)", "the error of "+interesting+" is dropped")
+				continue
+			}
+			if u.Direct && !u.Tested {
+				c.Ok("R5.errors", key+" error returned", w.Pos(call.Pos()), "returned directly")
+				continue
+			}
+			// tested: the non-nil edge must end in non-nil error returns
+			ok := true
+			idx := errorResultIndex(fn)
+			for _, b := range fn.Blocks {
+				if nn, k := f.KnownNil(b, u.Err); k && !nn {
+					if !leadsOnlyToReturns(b, func(x *ssa.BasicBlock) bool { n2, k2 := f.KnownNil(x, u.Err); return k2 && !n2 }) {
+						ok = false
+					}
+				}
+			}
+			for _, r := range liveReturns(fn) {
+				if nn, k := f.KnownNil(r.Block(), u.Err); k && !nn {
+					if idx < 0 {
+						ok = false
+						continue
+					}
+					for _, lf := range w.Leaves(r.Results[idx], r) {
+						if !w.NonNil(lf.Val, lf.Facts) {
+							ok = false
+						}
+					}
+				}
+			}
+			if !ok {
+				if why, reviewed := c10ErrIdioms[key]; reviewed {
+					c.Ok("R5.errors", key+" error handled (reviewed idiom)", w.Pos(call.Pos()), why)
+					continue
+				}
+			}
+			c.Check(ok, "R5.errors", key+" error ends the operation", w.Pos(call.Pos()), "the non-nil edge reaches only non-nil error returns", "a failure of "+interesting+" does not surface as an error of the operation")
+		}
+	}
+	c.Floor("R5.errors", n, 15, "error-returning calls in the shim package")
+}
+
+// reviewed exceptions, one line of reason each
+var c10ErrIdioms = map[string]string{
+	"(*shimagent.Server).remove|agent.Remove":                                "when the key was an in-memory certificate the underlying agent answers 'not found'; the error is returned unless the in-memory entry was removed (err != nil && !removed)",
+	"(*shimagent.Server).List|sshutils/cert.Label":                           "a certificate without a derivable label is listed with its comment only (label error is a display fallback)",
+	"(*shimagent.Server).AddHardCert|sshutils/cert.Label":                    "a certificate without a derivable label is stored with the caller's suffix only (display fallback)",
+	"(*shimagent.Server).List|sshutils/key.CastSSHPublicKeyToCertificate":    "a cast error means a plain key: listed as is",
+	"(*shimagent.Server).Signers|sshutils/key.CastSSHPublicKeyToCertificate": "a cast error means a plain key: listed as is",
+}
+
+func c10Deletions(c *Ctx, m *shimModel) {
+	w := c.w
+	ctor := w.Func(shimPkg, "newShimAgent")
+	var remove *ssa.Function
+	n := 0
+	for _, a := range w.FieldAccesses(m.Server, m.fCerts) {
+		switch a.Kind {
+		case "mapdelete":
+			n++
+			remove = a.Fn
+			c.Check(a.Fn.Object() != nil && !a.Fn.Object().Exported() && recvNamed(a.Fn) == m.Server, "R6.deletions", "delete from the table in "+shortFn(a.Fn), w.Pos(a.Instr.Pos()), "the removal helper", "an in-memory certificate is deleted outside the removal helper")
+		case "write":
+			n++
+			ok := a.Fn == m.Methods["RemoveAll"] || a.Fn == ctor
+			c.Check(ok, "R6.deletions", "table replaced in "+shortFn(a.Fn), w.Pos(a.Instr.Pos()), "RemoveAll / constructor", "the in-memory certificate table is replaced outside RemoveAll and the constructor")
+		}
+	}
+	c.Floor("R6.deletions", n, 3, "deletion / replacement sites of the table")
+	if remove != nil {
+		// static callers of the removal helper
+		for _, fn := range w.RepoFuncs() {
+			for _, call := range callsIn(fn) {
+				if call.Common().StaticCallee() == remove {
+					root := fn
+					for root.Parent() != nil {
+						root = root.Parent()
+					}
+					ok := fn == m.Methods["Remove"] || (fn.Parent() != nil && root.Signature.Results().Len() == 3)
+					c.Check(ok, "R6.deletions", "caller of the removal helper: "+shortFn(fn), w.Pos(call.Pos()), "Remove or the pruning function's remover", "the removal helper is called from an unexpected place: a still-valid in-memory certificate can be dropped on an unrelated path")
+				}
+			}
+		}
+	}
 }
